@@ -193,6 +193,19 @@ pub fn run(ctx: &Ctx) -> i32 {
     if ctx.replay.is_none() {
         syscall_monitor(&mut rep);
     }
+    // endings: connections closed by either side, peers vanishing, stateless resets hitting closed
+    // connections (the C08 scenarios): whatever a drained connection still emits or keeps armed
+    // is this property's business
+    let g = Group { name: "after-drain", cases: ctx.tier.pick(1200, 60_000), budget_s: ctx.tier.pick(12.0, 400.0), exhaustive: false };
+    run_group(ctx, &mut rep, &g, |_, seed, trace| {
+        let mut out = super::c08::case(seed, crate::world::Lane::Null, trace);
+        for v in out.viol.iter_mut() {
+            if v.msg.contains("after the final Drained event") || v.msg.contains("drained connection still has a timer armed") || v.msg.contains("Drained endpoint event") {
+                v.prop = "C20";
+            }
+        }
+        out
+    });
     finish(
         ctx,
         &rep,
